@@ -190,11 +190,23 @@ func isLoopHeader(b *ssa.BasicBlock) bool {
 	return false
 }
 
+// mkcond builds a guard, looking through negations.
+func mkcond(l lval, cond ssa.Value, side bool) gcond {
+	for {
+		u, ok := cond.(*ssa.UnOp)
+		if !ok || u.Op != token.NOT {
+			break
+		}
+		cond, side = u.X, !side
+	}
+	return gcond{l.with(cond), side}
+}
+
 // guards of a block: the branch outcomes that are known whenever the block executes.
 func guardsOf(b *ssa.BasicBlock, l lval) []gcond {
 	var out []gcond
 	for _, pc := range pathConds(b) {
-		out = append(out, gcond{l.with(pc.cond), pc.side})
+		out = append(out, mkcond(l, pc.cond, pc.side))
 	}
 	return out
 }
@@ -216,7 +228,7 @@ func (t *tracer) alts(l lval, depth int) []galt {
 			pred := x.Block().Preds[i]
 			conds := guardsOf(pred, l)
 			if iff, ok := pred.Instrs[len(pred.Instrs)-1].(*ssa.If); ok && pred.Succs[0] != pred.Succs[1] {
-				conds = append(conds, gcond{l.with(iff.Cond), pred.Succs[0] == x.Block()})
+				conds = append(conds, mkcond(l, iff.Cond, pred.Succs[0] == x.Block()))
 			}
 			for _, a := range t.alts(l.with(e), depth+1) {
 				out = append(out, galt{append(append([]gcond{}, conds...), a.conds...), a.leaf})
@@ -532,3 +544,44 @@ func paramName(l lval) (string, bool) {
 	}
 	return p.Name(), true
 }
+
+// eqTest classifies a guard as a comparison `a == b` where a is the given located value and b satisfies isB;
+// equal is the outcome that is known to hold when the guard holds.
+func (t *tracer) eqTest(g gcond, a lval, isB func(lval) bool) (equal bool, ok bool) {
+	cl := t.trace(g.cond)
+	b, isBin := cl.v.(*ssa.BinOp)
+	if !isBin || (b.Op != token.EQL && b.Op != token.NEQ) {
+		return false, false
+	}
+	x := t.trace(cl.with(b.X))
+	y := t.trace(cl.with(b.Y))
+	if !(x.same(a) && isB(y)) && !(y.same(a) && isB(x)) {
+		return false, false
+	}
+	if b.Op == token.EQL {
+		return g.want, true
+	}
+	return !g.want, true
+}
+
+// guardsAlong: the guards of a located instruction at every call depth from level down to the instruction itself.
+func guardsAlong(li linstr, level int) []gcond {
+	var out []gcond
+	for k := level; k <= len(li.chain); k++ {
+		in := li.at(k)
+		out = append(out, guardsOf(in.Block(), lval{nil, in.Parent(), li.chain[:k]})...)
+	}
+	return out
+}
+
+// loopAround: the innermost counted loop around the located instruction, searched from the deepest call level upwards.
+func loopAround(li linstr) (*loopInfo, int) {
+	for k := len(li.chain); k >= 0; k-- {
+		if l := enclosingRangeLoop(li.at(k).Block()); l != nil {
+			return l, k
+		}
+	}
+	return nil, -1
+}
+
+func (c *Ctx) plainTracer() *tracer { return &tracer{c: c} }
